@@ -226,7 +226,10 @@ fn check_case<'a>(b: &'a AllBuilder<'a>, c: &Case, evals: &mut u64) -> Option<(S
                 Some(l) => levels[v] > l,
             };
             let u = if allowed { u } else { 0.0 };
-            we.push(((1.0 - pt, 0.0), (pt, pt * u)));
+            // reward on the negative literal as well for two of the four alphabet entries
+            // (a chance variable whose false outcome pays): utilities stay non-negative
+            let ulow = if allowed { [3.0, 0.0, 1.0, 0.0][k] } else { 0.0 };
+            we.push(((1.0 - pt, (1.0 - pt) * ulow), (pt, pt * u)));
         }
     }
     let mut best_eu = f64::NEG_INFINITY;
